@@ -18,6 +18,7 @@ import (
 	"fmt"
 	"os"
 	"path/filepath"
+	"runtime"
 	"sort"
 	"strconv"
 	"strings"
@@ -71,7 +72,7 @@ func segmentFile(dir string, prevIndex uint64) string {
 }
 
 func segments(dir string) ([]uint64, error) {
-	matches, err := filepath.Glob(filepath.Join(dir, "*.log"))
+	matches, err := filepath.Glob(filepath.Join(globEscape(dir), "*.log"))
 	if err != nil {
 		return nil, err
 	}
@@ -89,6 +90,25 @@ func segments(dir string) ([]uint64, error) {
 		return offs[i] < offs[j]
 	})
 	return offs, nil
+}
+
+// globEscape quotes the meta characters of filepath.Glob in path,
+// so that the result, used as pattern, matches only the path itself
+func globEscape(path string) string {
+	var b strings.Builder
+	for i := 0; i < len(path); i++ {
+		switch c := path[i]; {
+		case c == '*' || c == '?' || c == '[':
+			b.WriteByte('[')
+			b.WriteByte(c)
+			b.WriteByte(']')
+		case c == '\\' && runtime.GOOS != "windows":
+			b.WriteString("[\\\\]")
+		default:
+			b.WriteByte(c)
+		}
+	}
+	return b.String()
 }
 
 func openSegments(dir string, opt Options) (first, last *segment, err error) {
